@@ -75,6 +75,10 @@ func unaryTotalCalls() []totCall {
 		{"Decimal.Float64", func(d dec.Decimal) string { return fmt.Sprintf("%x", math.Float64bits(d.Float64())) }, never, false},
 		{"Decimal.Float32", func(d dec.Decimal) string { return fmt.Sprintf("%x", math.Float32bits(d.Float32())) }, never, false},
 		{"Decimal.Float", func(d dec.Decimal) string { return d.Float(nil).Text('p', 0) }, onNaN, true},
+		{"Decimal.Float", func(d dec.Decimal) string {
+			return d.Float(new(big.Float).SetPrec(24)).Text('p', 0) + d.Float(new(big.Float).SetPrec(113)).Text('p', 0)
+		}, onNaN, true},
+		{"Decimal.Int", func(d dec.Decimal) string { return fmt.Sprint(d.Int(big.NewInt(-5)).BitLen()) }, onSpecial, true},
 		{"Decimal.Int", func(d dec.Decimal) string { return fmt.Sprint(d.Int(nil).BitLen()) }, onSpecial, true},
 		{"Decimal.Rat", func(d dec.Decimal) string { r := d.Rat(nil); return fmt.Sprint(r.Num().BitLen(), r.Denom().BitLen()) }, onSpecial, true},
 		{"Decimal.Int64", func(d dec.Decimal) string { return fmt.Sprint(d.Int64()) }, onNaN, false},
@@ -333,7 +337,9 @@ func c20Totality(r *eng.Run) {
 		d := D(b)
 		sparse := i%97 != 0 && v.Class == ref.Fin && (b.Hi()>>47)&0x3f != 0
 		for _, c := range ucalls {
-			if c.heavy && sparse {
+			// the elementary functions and big conversions run on every exponent for two of the three low-bit
+			// shapes; only the very large outputs (precision above 1000) are thinned out
+			if c.heavy && sparse && (c.name == "Format" || c.name == "Append" || i%3 == 0) {
 				continue
 			}
 			w.Set1(c.name, "", b)
